@@ -32,6 +32,14 @@
 // Not/And/Or above it or for the rule list; all trees of depth 2 over a small
 // leaf set in the VM (plan rules-tree2), all trees of the match layer on failing
 // contexts.
+//
+// Extension "oracle-callback" (ext_oracle_test.go, round 5): which SIGNER SET
+// decides a check executed in the callback of an oracle response (the requesting
+// transaction's), before Oracle.finish / after the callback returned and in the
+// next transaction of the block (the executing transaction's own); test
+// invocations of response transactions over three persisted requests plus real
+// blocks with responses (two in one block, a faulting callback, a request made by
+// a callback and its response).
 package c15
 
 import (
@@ -237,12 +245,17 @@ func TestCheck(t *testing.T) {
 	if only != "" {
 		r.Capped()
 	}
-	if only != "vm" {
+	if only != "vm" && only != "oracle" {
 		runMatch(r, vk.Pick(r, 2, 3), cov)
 	} else {
 		cov["match_evaluations"], cov["match_trees"] = 0, 0
 	}
 	fmt.Printf("layer match: trees=%v evaluations=%v elapsed=%.0fs\n", cov["match_trees"], cov["match_evaluations"], r.Elapsed())
+
+	// ---- family oracle-callback (ext_oracle_test.go): early and cheap ----
+	if only == "" || only == "oracle" {
+		runOracle(r, cov)
+	}
 
 	// ---- layer 1 ----
 	chains := allChains(3)
@@ -278,7 +291,7 @@ func TestCheck(t *testing.T) {
 		builts[i] = b
 	}
 	plans := makePlans(r, chains)
-	if only == "match" {
+	if only == "match" || only == "oracle" {
 		plans = nil
 	}
 	if pn := os.Getenv("C15_PLAN"); pn != "" { // development aid: one plan (never exhaustive)
@@ -440,9 +453,10 @@ func TestCheck(t *testing.T) {
 		cs = append(cs, c.String())
 	}
 	kinds := ctxSet.Len()
-	cov["states"] = int(stateCount.Get())
-	cov["transitions"] = int(evals.Get()) + cov["match_evaluations"].(int)
-	cov["traces_validated_against_impl"] = int(invocations.Get()) + cov["match_trees"].(int)
+	oi := func(k string) int { v, _ := cov[k].(int); return v }
+	cov["states"] = int(stateCount.Get()) + oi("oracle_cases") + oi("oracle_block_transactions")
+	cov["transitions"] = int(evals.Get()) + cov["match_evaluations"].(int) + oi("oracle_checkwitness_evaluations") + oi("oracle_block_checkwitness_evaluations")
+	cov["traces_validated_against_impl"] = int(invocations.Get()) + cov["match_trees"].(int) + oi("oracle_invocations") + oi("oracle_block_transactions")
 	cov["vm_invocations"] = int(invocations.Get())
 	cov["vm_checkwitness_evaluations"] = int(evals.Get())
 	cov["vm_expected_true"] = int(cwTrue.Get())
@@ -496,6 +510,10 @@ func TestCheck(t *testing.T) {
 		"a dynamic script byte-identical to a deployed contract's script does not have the contract's hash (contract hash = H(sender, NEF checksum, name)), so no context pair of that kind shares a hash; not enumerated",
 		"key-to-account mapping (verification script hash of a public key) and manifest group signature checks are trusted",
 		"facts extension: a contract of the chain (A, B(G1) or C(G1,G2), entry + up to 3 steps, optionally a dynamic script loaded last) replaces its manifest groups by another set (ContractManagement.update with nef=null and the same manifest re-signed for the new groups) or destroys itself, between two rounds of checks and before calling the next step; with `throw` the frame throws after its second round and the calling contract catches (the change is rolled back); the groups of a contract are the groups ContractManagement holds at the moment of the check (a destroyed contract has none) - the harness reads them through the execution's own DAO at every check and reports a difference from the model as 'stored-groups-differ-from-model'; a destroyed contract is not called again (the call would fault); update is always done by the contract itself (ContractManagement updates its caller), 'changed by a callee' is the re-entrant shape X>Y>X",
+		"oracle-callback extension: checks executed in the callback of an oracle response and in everything it calls are decided against the signers of the transaction that made the request (for a request made BY a callback: of the first transaction of that history, Oracle.getOriginalTxID), whatever the response transaction's signers are; checks in the response transaction's entry script before Oracle.finish and after the callback returned, and in later transactions of the block, against that transaction's own signers. Context chain inside the callback: entry = the response script, calling contract of the callback = native Oracle (so the callback is NOT called by entry and the Oracle hash itself is witnessed there by the calling-contract rule), the steps below as usual",
+		"oracle-callback extension, bounds: one chain per worker (3) with K (callback contract, group G2) next to A, B(G1), C(G1,G2), oracle node designated, requests T1 (sender CalledByEntry + 14 accounts carrying {None, CalledByEntry, Global, CustomContracts{K}, CustomContracts{A}, CustomGroups{G2}, CustomGroups{G1}, Rules[Allow CalledByContract(Oracle)], Rules[Allow CalledByEntry], Rules[Allow ScriptHash(K)], Rules[Allow Group(G2)], Rules[Allow CalledByGroup(G2)], Rules[Deny CalledByContract(Oracle); Allow true], Rules[Allow CalledByContract(K)]} + contract B), T2 (sender None, menu rotated by 5, the oracle nodes' account with Global), T3 (sender Global alone); response signer sets {native Oracle + nodes (None) | those + the 14 accounts with the menu rotated by 9}; steps below the callback: none or one of {A, B, C, K, dynamic script} (thorough: two); variants plain / innermost frame throws and is caught / callback throws (with and without TRY around Oracle.finish) / callback makes a new request first; standard response script or [checks; Oracle.finish; checks]; every level asks again after the call below it returned",
+		"oracle-callback extension: response transactions with other signers than (Oracle, nodes; scope None) or another script than the standard one cannot enter a block (verifyTxAttributes); they are test invocations only, exactly like every other transaction of this check. A throwing callback ends the whole execution even under a TRY of the entry script (accepted: the execution may end there; had it gone on, the remaining checks would be judged against the own signers). That the interop context still holds the original signers after such a FAULT is counted (oracle_contexts_left_with_switched_signers_after_the_execution_not_judged), not judged: nothing executes on that context afterwards",
+		"oracle-callback extension, not enumerated: callbacks reached through CALLT, callbacks without ReadStates (the callback always gets all flags), an updated/destroyed callback contract (the response faults before any check), native callers below the callback",
 		"facts extension, not enumerated: _deploy callbacks (U has none), updates replacing the script, chains with native callers or without ReadStates, contracts deployed during the execution",
 	})
 }
@@ -601,6 +619,8 @@ func replay(r *vk.Run) {
 				fmt.Printf("replay %d: agrees with the predicate (%d other mismatches in the transaction)\n", i, len(fails))
 			}
 		}
+	case layerOracle, "oracle-block":
+		n = replayOracle(r, probe.Layer)
 	default:
 		fmt.Println("unknown replay layer", probe.Layer)
 		os.Exit(3)
